@@ -18,8 +18,7 @@ Definition bad_level r n :=
 Definition bad_nonneg r n := filter (fun p => negb (0 <=? getLevel r p)) (rng n).
 
 Definition all r order n := (bad_unit r order n, bad_anc r order n, bad_level r n, bad_nonneg r n).
-Time Eval vm_compute in (all Localp0 1 200, all Localp0 2 200, all Localp0 3 200).
-Time Eval vm_compute in (all Localp 1 200, all Localp 2 200, all Localp 3 200).
-Time Eval vm_compute in (all Localpb 1 200, all Localpb 2 200, all Localpb 3 200).
-Time Eval vm_compute in (all Semilocalp 1 200, all Semilocalp 2 200, all Semilocalp 3 200).
-Time Eval vm_compute in (all Localp0 4 100, all Localp0 (-1) 100, all Localp 5 100, all Localp (-1) 100, all Localpb 4 100, all Localpb (-1) 100, all Semilocalp 4 100, all Semilocalp (-1) 100).
+Definition empty4 (x : list Z * list (Z * Z) * list (Z * Z) * list Z) : bool :=
+  match x with (a,b,c,d) => match a,b,c,d with [],[],[],[] => true | _,_,_,_ => false end end.
+Definition orders := [-3;-1;0;1;2;3;4;5;6;7;9]%Z.
+Time Eval vm_compute in map (fun r => map (fun o => empty4 (all r o 140)) orders) [Localp0; Localp; Localpb; Semilocalp].
